@@ -131,6 +131,7 @@ def op_strategy(features):
                 st.tuples(st.just('fail_commit'), st.sampled_from(['commit', 'tpc_vote']), st.just('after')),
                 st.tuples(st.just('conflict_commit'), n),
                 st.tuples(st.just('pickle_fail_commit'), n),
+                st.tuples(st.just('pickle_fail_commit'), n, st.just('foreign')),
                 st.tuples(st.just('close_reopen')),
                 st.tuples(st.just('stray_write'), n, slot),
                 st.tuples(st.just('minimize'))]
@@ -474,7 +475,7 @@ class World:
         elif k == 'conflict_commit':
             self.conflict_commit(self.pick(op[1]))
         elif k == 'pickle_fail_commit':
-            self.pickle_fail_commit(self.pick(op[1]))
+            self.pickle_fail_commit(self.pick(op[1]), op[2] if len(op) > 2 else 'pickle')
         elif k == 'close_reopen':
             self.close_reopen()
         elif k == 'minimize':
@@ -601,9 +602,10 @@ class World:
         self.labels.add('failed-commit-%s-%s' % (phase, position))
         self.after_abort('failed commit (participant %s fails in %s)' % (position, phase), before, interesting)
 
-    def pickle_fail_commit(self, n):
+    def pickle_fail_commit(self, n, how='pickle'):
         """an object that this commit stores cannot be pickled: the commit raises while storing;
-        everything stored so far is aborted"""
+        everything stored so far is aborted.  how='foreign': it refers to an object that belongs to another
+        connection of the same database (InvalidObjectReference)"""
         m = self.m
         if not self.had_work() or n == 'root' or n not in m.closure():
             return
@@ -612,6 +614,12 @@ class World:
         o = self.objs[n]
         kind = m.mem[n]['kind']
         poison = lambda: None       # noqa: E731  (not picklable)
+        c3 = None
+        if how == 'foreign':
+            import transaction
+            c3 = self.db.open(transaction.TransactionManager())
+            poison = c3.root()
+            poison._p_activate()
         if kind == 'N':
             o.poison = poison
         elif kind == 'M':
@@ -621,11 +629,19 @@ class World:
         try:
             self.tm.commit()
         except Exception as e:
-            if 'pickle' not in (type(e).__name__ + str(e)).lower():
+            if how == 'foreign':
+                if type(e).__name__ != 'InvalidObjectReference':
+                    raise
+            elif 'pickle' not in (type(e).__name__ + str(e)).lower():
                 raise
         else:
-            self.fail('pickle-fail-commit', 'not-raised', 'commit of an unpicklable object did not raise')
+            self.fail('pickle-fail-commit', 'not-raised', 'commit of an unpicklable object did not raise'
+                      if how != 'foreign' else 'commit of a reference to an object of another connection did not raise')
             return
+        finally:
+            if c3 is not None:
+                c3.transaction_manager.abort()
+                c3.close()
         self.tm.abort()
         # repair the object so that the program can go on with it (it reverted if it was committed)
         o = self.objs[n]
@@ -647,7 +663,7 @@ class World:
                 return
         if n in m.committed:
             self.tm.abort()         # the repair of a committed object is itself a change: discard it
-        self.labels.add('failed-commit-unpicklable')
+        self.labels.add('failed-commit-unpicklable' if how != 'foreign' else 'failed-commit-foreign-reference')
         self.after_abort('failed commit (object %s not picklable)' % n, before, interesting)
 
     def conflict_commit(self, n):
